@@ -187,8 +187,20 @@ def run_steps(env, p):
             keys = sorted(active_model, key=str)
             k = keys[env.choice(f'which{step}', len(keys))]
             i = active_model[k]
-            iserr = env.choice(f'err{step}', 2)
+            iserr = env.choice(f'err{step}', 3)       # 0 reply, 1 error reply, 2 reply with a value the datatype refuses
             rq = reqs[i]
+            if iserr == 2:
+                if k is None or k[0] not in ('reply', 'changed'):
+                    continue
+                reply = (k[0], rq[1], ['abc', {}])
+                rx(encode_msg_frame(*reply))
+                active_model.pop(k)
+                completed[i] = reply
+                env.note('completed')
+                env.check(entries[i][1].is_set(), K + '/reply-with-unusable-value-does-not-release-its-caller', [reqs[i]])
+                queue_model = queue_model + parked_model
+                parked_model = []
+                continue
             if k is None:
                 reply = ('error_' + rq[0], rq[1], ['ProtocolError', 'unknown', {}]) if iserr else ('xyz_reply', None, 5)
             elif iserr:
@@ -246,7 +258,7 @@ def run_steps(env, p):
             env.check(all(v is not entries[j] for v in cl.active_requests.values()), K + '/timed-out-request-still-blocks-its-key')
     # every caller whose request was answered gets exactly that answer (or the error it carries)
     for i, reply in completed.items():
-        if i in timed_out:
+        if i in timed_out or reply[2] == ['abc', {}]:
             continue
         try:
             r = cl.get_reply(entries[i])
